@@ -8,7 +8,7 @@ from ..registries import DTYPE_RANGE, qtype_table
 TITLE = "Scale selection is non-saturating, full-range and local to its axis/group"
 
 RULES = {
-    "C03.R1": "reduction dims: for every range function, the dim of amax/amin folded for ndim 1..4 x axis {0,-1} is range(ndim) minus the kept axis; keepdim=True; axis None reduces everything",
+    "C03.R1": "reduction dims: for every range function, the dim of amax/amin folded for ndim 1..4 x axis {0,-1} is range(ndim) minus the kept axis; keepdim=True; axis None reduces everything; a range taken over a flattened / reshaped view is evaluated in the shape domain (which dims of the base each dim of the result spans): extent 1 everywhere but the kept axis, every other dim folded",
     "C03.R8": "calibrated scales have the dtype of the source: nothing on the way from the measured tensor to the scale buffer converts to a fixed dtype (float(), to(torch.float32), dtype=...) without converting back to the dtype of a tensor",
     "C03.R7": "calibrated activation scales: the calibration hooks measure the module's float input and raw output with absmax_scale(x, module.activation_qtype) (the rules C12.R3/R4), so the divisor is the maximum of the qtype in force",
     "C03.R2": "symmetric ranges reduce |base|; affine ranges take amin and amax over the same dims of the same (grouped) tensor",
